@@ -60,7 +60,12 @@ class Sequence(AbstractSequence):
         self.sequence_type = type
         self.parent = make_parent(parent) if parent else None
         self._len = len(self.sequence)
-        if validate_parent and self.parent and self.parent.location and len(self.parent.location) != len(self):
+        if (
+            validate_parent
+            and self.parent
+            and self.parent.location is not None
+            and len(self.parent.location) != len(self)
+        ):
             raise MismatchedParentException(
                 "Sequence length ({}) does not equal parent location length ({})".format(
                     len(self), len(self.parent.location)
